@@ -194,7 +194,7 @@ class Run:
         self.known_hits = []
         self.cov = {}
         self.known = [k for k in json.load(open(os.path.join(ROOT, "known_findings.json")))["findings"]
-                      if k["property"] == pid]
+                      if k["property"] == pid or k["property"] in cfg.get("known_from", [])]
 
     def say(self, *a):
         msg = " ".join(str(x) for x in a)
